@@ -267,8 +267,10 @@ class ScopeExit(Obj):
         self.fn = fn
         self.hide = hide
         self.active = True
+        self.depth = 0
 
     def m_release(self, I, args, n):
+        _guard_depth_check(I, self, "release")
         self.active = False
         return VOID
 
@@ -294,12 +296,15 @@ class UnwindGuard(Obj):
         self.fn = fn
         self.rec = uncaught_at_ctor
         self.active = True
+        self.depth = 0
 
     def m_release(self, I, args, n):
+        _guard_depth_check(I, self, "release")
         self.active = False
         return VOID
 
     def m_complete(self, I, args, n):
+        _guard_depth_check(I, self, "complete")
         if not self.active:
             return VOID
         self.active = False
@@ -317,13 +322,15 @@ class UnwindGuard(Obj):
 
 
 class FirstExc(Obj):
-    """FirstExceptionRecorder"""
+    """FirstExceptionRecorder: state lives in the store (has: Bool) so that loops havoc it through their frame"""
     cls = "FirstExceptionRecorder"
 
-    def __init__(self):
+    def __init__(self, ctx):
         Obj.__init__(self, name="first_exception")
-        self.first = None  # python-level: per path the recorder state is concrete ...
-        self.sym = None  # ... unless havocked by a loop: then (has: Bool, exc)
+        ctx.store[(self.oid, "has")] = z3.BoolVal(False)
+
+    def has(self, ctx):
+        return ctx.store[(self.oid, "has")]
 
     def m_capture(self, I, args, n):
         ctx = I.ctx
@@ -331,34 +338,24 @@ class FirstExc(Obj):
             I.call_value(ctx.rv(args[0]), [], n)
         except ThrowEx as t:
             ctx.uncaught -= 1
-            self.record(I, t.exc)
+            ctx.write(Loc((self.oid, "has")), z3.BoolVal(True))
+            self.last = t.exc
         return VOID
 
-    def record(self, I, exc):
-        if self.sym is not None:
-            has, e = self.sym
-            # first wins: keep a symbolic blend
-            self.sym = (z3.BoolVal(True), ("blend", has, e, exc))
-            return
-        if self.first is None:
-            self.first = exc
-
     def m_has_exception(self, I, args, n):
-        if self.sym is not None:
-            return self.sym[0]
-        return z3.BoolVal(self.first is not None)
+        return self.has(I.ctx)
 
     def m_rethrow_if_any(self, I, args, n):
         ctx = I.ctx
-        if self.sym is not None:
-            if ctx.decide(self.sym[0], "rethrow_if_any"):
-                ctx.uncaught += 1
-                raise ThrowEx(ExcVal("unknown", origin="first captured", tags={"captured": self.sym[1]}))
-            return VOID
-        if self.first is not None:
+        if ctx.decide(self.has(ctx), "rethrow_if_any"):
             ctx.uncaught += 1
-            raise ThrowEx(self.first)
+            raise ThrowEx(ExcVal("unknown", origin="FirstExceptionRecorder", tags={"recorded": True}))
         return VOID
+
+
+def _guard_depth_check(I, g, what):
+    if len(I.ctx.loop_frames) > g.depth:
+        raise Gap("%s of a guard inside a loop it was declared outside of (guard state is not havocked)" % what)
 
 
 def annotate_on_exception(I, args, n):
@@ -397,21 +394,25 @@ def fallback_on_exception(I, args, n):
         return fb
 
 
-def make_scope_exit(hide):
-    def h(I, args, n):
-        return ScopeExit(I.ctx.rv(args[0]), hide)
-    return h
-
-
 def scope_exit_handler(I, args, n):
     from .interp import type_of
     qt = type_of(n)
     hide = qt.replace(" ", "").endswith(",true>")
-    return ScopeExit(I.ctx.rv(args[0]), hide)
+    a = I.ctx.rv(args[0])
+    if isinstance(a, ScopeExit):
+        return a  # (elidable) move construction
+    g = ScopeExit(a, hide)
+    g.depth = len(I.ctx.loop_frames)
+    return g
 
 
 def unwind_guard_ctor(I, args, n):
-    return UnwindGuard(I.ctx.rv(args[0]), I.ctx.uncaught)
+    a = I.ctx.rv(args[0])
+    if isinstance(a, UnwindGuard):
+        return a
+    g = UnwindGuard(a, I.ctx.uncaught)
+    g.depth = len(I.ctx.loop_frames)
+    return g
 
 
 def install_guards(kernel_cls):
@@ -426,7 +427,7 @@ def install_guards(kernel_cls):
     ct.setdefault("hgraph::UnwindCleanupGuard<*", unwind_guard_ctor)
     ct.setdefault("scope_exit<*", scope_exit_handler)
     ct.setdefault("hgraph::scope_exit<*", scope_exit_handler)
-    ct.setdefault("FirstExceptionRecorder", lambda I, a, n: FirstExc())
-    ct.setdefault("hgraph::FirstExceptionRecorder", lambda I, a, n: FirstExc())
+    ct.setdefault("FirstExceptionRecorder", lambda I, a, n: FirstExc(I.ctx))
+    ct.setdefault("hgraph::FirstExceptionRecorder", lambda I, a, n: FirstExc(I.ctx))
     kernel_cls.ctors = ct
     return kernel_cls
